@@ -114,11 +114,17 @@ def handle_line(proto, line):
     return o
 
 
+LAST_EXC_SITE = [None]
+
+
 def handle_request(proto, request):
-    """protocol.handle_request with exceptions captured.  Returns (reply, exc_name)."""
+    """protocol.handle_request with exceptions captured.  Returns (reply, exc_name);
+    LAST_EXC_SITE[0] = 'ExcType@file:function' of the innermost /repo frame."""
     try:
+        LAST_EXC_SITE[0] = None
         return proto.handle_request(request), None
     except BaseException as e:   # noqa
+        LAST_EXC_SITE[0] = "%s@%s" % (type(e).__name__, innermost_repo_frame(e))
         return None, type(e).__name__ + ":" + str(e)[:200]
 
 
